@@ -49,5 +49,14 @@ for d, pkg, title, ctor, verify, hspkg, hdrtype, imp, mk, path in routers:
     }
     if imp == HSETH:
         spec['overrides']['github.com/polynetwork/poly/native/service/header_sync/eth/rlp.init'] = 'zzNoInit'
+    if d == 'polygon':
+        # this package's init() seeds a PRNG from crypto/rand (no entropy source under the engine); the PRNG is not used by the glue code
+        spec['overrides']['github.com/polynetwork/poly/native/service/header_sync/polygon/types/common.init#1'] = 'zzNoInit'
+        # amino codec registration (reflection) in package initialisers; the codecs are not used by the glue code
+        spec['overrides']['github.com/polynetwork/poly/native/service/header_sync/polygon/types/secp256k1.init#1'] = 'zzNoInit'
+        spec['overrides']['github.com/polynetwork/poly/native/service/header_sync/polygon/types.NewCDC'] = 'zzNewCDC'
+        s = s.replace('func zzNoInit() {}', 'func zzNoInit() {}\n\nfunc zzNewCDC() *codec.Codec { return nil }')
+        s = s.replace('import (', 'import (\n\t"github.com/cosmos/cosmos-sdk/codec"', 1)
+        open(os.path.join(root, d, 'zz_c23_%s.go' % d), 'w').write(s)
     json.dump(spec, open(os.path.join(root, 'spec_%s.json' % d), 'w'), indent=1)
     print('generated', d)
